@@ -53,7 +53,7 @@ ASSUMPTIONS = ['isolation is judged by deep equality with a snapshot normalised 
                'the disk cache lives on a real temporary directory removed after each run']
 
 STORES = ['new_pickle', 'new_pickle', 'new_copy', 'new_wu', 'cache', 'eager_cache', 'diskcache',
-          'cache_tuple', 'new_tuple', 'new_json', 'eager_cache_raw', 'cache_over_copy']
+          'cache_tuple', 'new_tuple', 'new_json', 'eager_cache_raw', 'cache_over_copy', 'cache_nomem']
 PATHS = ['index', 'neg', 'key', 'iter', 'items', 'slice', 'copy', 'prefetch1', 'prefetchw', 'base']
 MUTS = ['set', 'del', 'append', 'clear', 'array', 'nested']
 
@@ -98,7 +98,7 @@ def gen(rng, tier, index):
                  'ops': [['mutate_original', 'grow', 0], ['read', 'iter', 0, 0],
                          ['mutate_original', 'grow', 0], ['read', 'iter', 0, 0]]}]
     if rng.random() < 0.15 and store in ('cache', 'diskcache', 'new_pickle', 'new_copy',
-                                         'cache_tuple'):
+                                         'cache_tuple', 'new_wu', 'cache_nomem'):
         # two client threads read and mutate concurrently (thread simulator)
         cases = []
         for j in range(3):
@@ -328,6 +328,9 @@ def run(case):
                 base = lazy_dataset.new(orig)
                 if store in ('cache', 'cache_tuple'):
                     ds = base.cache()
+                elif store == 'cache_nomem':
+                    # a memory cache that is never allowed to keep anything
+                    ds = base.cache(keep_mem_free='100%')
                 elif store == 'eager_cache':
                     ds = base.cache(lazy=False)
                 else:
